@@ -71,8 +71,7 @@ func init() {
 			x.Outcome(fmt.Sprintf("allowed=%q polled=%q present=%v presumed=%q prior=%s", cw.allowed, cw.polled, cw.present, cw.presumed, c06PriorName[prior]))
 			w := newWorld()
 			cw.w = w
-			w.ctx.allowedRelayPattern = cw.allowed
-			w.ctx.presumedPatternForLegacyClient = cw.presumed
+			w.installPatterns(cw.allowed, cw.presumed)
 			if prior > 0 {
 				pp := w.addProxy(NATUnrestricted, "standalone", 0, 0, ansPrompt)
 				pp.sid = "prior-sid"
